@@ -45,3 +45,47 @@ pub fn highlight_check_case(index: usize, s: &str) -> String {
     let h = ReplHighlighter::new();
     format!("OK {}", h.highlight_check(s, index))
 }
+
+pub fn parse_text_case(s: &str) -> String {
+    match marwood::parse::parse_text(s) {
+        Ok((cell, rest)) => {
+            let r = match rest {
+                None => "NONE".to_string(),
+                Some(rest) => format!("REST {}", s.len() - rest.len()),
+            };
+            format!("OK {} {}", esc(&format!("{:#}", cell)), r)
+        }
+        Err(marwood::parse::Error::Incomplete)
+        | Err(marwood::parse::Error::LexError(lex::Error::Incomplete)) => "ERR incomplete".into(),
+        Err(_) => "ERR".into(),
+    }
+}
+
+pub fn parse_all_case(s: &str) -> String {
+    let mut o = String::from("ALL");
+    let mut text: &str = s;
+    loop {
+        match marwood::parse::parse_text(text) {
+            Ok((cell, rest)) => {
+                o.push(' ');
+                o.push_str(&esc(&format!("{:#}", cell)));
+                match rest {
+                    None => {
+                        o.push_str(" END");
+                        return o;
+                    }
+                    Some(rest) => text = rest,
+                }
+            }
+            Err(marwood::parse::Error::Incomplete)
+            | Err(marwood::parse::Error::LexError(lex::Error::Incomplete)) => {
+                o.push_str(" ERR incomplete");
+                return o;
+            }
+            Err(_) => {
+                o.push_str(" ERR");
+                return o;
+            }
+        }
+    }
+}
